@@ -500,7 +500,17 @@ class Registry:
             finally:
                 run.spec_depth -= 1
         n_choose0 = getattr(run, "n_choose", 0)
-        for en in c["ensures"]:
+        ens_list = list(c["ensures"])
+        view = it.ctx.policy.get(fi.qualname, "")
+        if isinstance(view, str) and view.startswith("contract:"):
+            # the caller asked for a named abstraction of the callee's contract: fewer postconditions are *assumed*
+            # (sound: every clause of the view is a clause of the verified contract)
+            idxs = c.get("views", {}).get(view.split(":", 1)[1])
+            if idxs is None:
+                raise Unsupported("contract of %s has no view %s" % (fi.qualname, view))
+            ens_list = [ens_list[i] for i in idxs]
+            run.assumed.append("view:%s of %s" % (view.split(":", 1)[1], fi.qualname))
+        for en in ens_list:
             if isinstance(en, tuple) and en[0].endswith("!"):
                 continue        # property-derived clause: checked against the code, never assumed by callers
             en_text = en[1] if isinstance(en, tuple) else en
@@ -826,6 +836,15 @@ def _spec_keyof(self, e, fr):
     return self.mapkey(self.ev(e.args[0], fr))
 
 
+def _spec_floor(self, e, fr):
+    v = self.run.num(self.ev(e.args[0], fr))
+    if not is_z3(v):
+        import math
+        return int(math.floor(v))
+    return v if v.sort() == INT else z3.ToInt(v)
+
+
+X.Interp.spec_floor = _spec_floor
 X.Interp.spec_forall_int = _spec_forall_int
 X.Interp.spec_invariant_of = _spec_invariant_of
 X.Interp.spec_keyof = _spec_keyof
